@@ -420,3 +420,70 @@ func ZZC09_import_links() {
 		zzAssert(ok && string(got) == string(w.bytes[d]), "import_yields_complete_identical_content")
 	}
 }
+
+// An index with a blob-typed entry (a layer media type or an unknown media
+// type next to an image manifest): export then import reproduces it - same top
+// digest, the blob present and identical.
+func ZZC09_blob_entry() {
+	zzos.Reset()
+	w := &zzWorld{bytes: map[digest.Digest][]byte{}, mans: map[digest.Digest]bool{}}
+	for i := 0; i < 2; i++ {
+		w.pool = append(w.pool, w.put([]byte{'l', byte('0' + i)}, mediatype.OCI1LayerGzip, false))
+	}
+	zzSmall = true
+	img := w.image(0)
+	zzSmall = false
+	extra := w.put([]byte("extra-blob"), mediatype.OCI1LayerGzip, false)
+	if zzBool("unknown_media_type") {
+		extra.MediaType = "application/octet-stream"
+	}
+	w.all = append(w.all, extra.Digest)
+	idx := v1.Index{Versioned: v1.IndexSchemaVersion, MediaType: mediatype.OCI1ManifestList, Manifests: []descriptor.Descriptor{img, extra}}
+	if zzBool("blob_entry_first") {
+		idx.Manifests = []descriptor.Descriptor{extra, img}
+	}
+	b, _ := json.Marshal(idx)
+	w.top = w.put(b, mediatype.OCI1ManifestList, true)
+	w.all = append(w.all, w.top.Digest)
+	top := w.top
+	top.Annotations = map[string]string{"org.opencontainers.image.ref.name": "v1"}
+	sb, _ := json.Marshal(v1.Index{Versioned: v1.IndexSchemaVersion, MediaType: mediatype.OCI1ManifestList, Manifests: []descriptor.Descriptor{top}})
+	zzos.Cur.Put(zzSrc+"/oci-layout", []byte(`{"imageLayoutVersion":"1.0.0"}`))
+	zzos.Cur.Put(zzSrc+"/index.json", sb)
+	rc := New()
+	rSrc, _ := ref.New("ocidir://" + zzSrc + ":v1")
+	zztar.Output = nil
+	var sink bytes.Buffer
+	err := rc.ImageExport(context.Background(), rSrc, &sink)
+	zzAssert(err == nil, "export_with_blob_entry_succeeds")
+	if err != nil {
+		return
+	}
+	zzReach("blob_entry_exported")
+	var files []zztar.Entry
+	hasExtra := false
+	for _, e := range zztar.Output {
+		if e.Hdr.Typeflag != zztar.TypeDir {
+			files = append(files, e)
+			if strings.HasSuffix(e.Hdr.Name, extra.Digest.Encoded()) {
+				hasExtra = true
+			}
+		}
+	}
+	zzAssert(hasExtra, "archive_holds_the_blob_entry")
+	zztar.Input = files
+	zzos.Cur.Put("/in.tar", []byte("tar"))
+	fh, _ := zzos.Open("/in.tar")
+	rTgt, _ := ref.New("ocidir://" + zzTgt + ":v1")
+	err = rc.ImageImport(context.Background(), rTgt, fh)
+	zzAssert(err == nil, "import_with_blob_entry_succeeds")
+	if err != nil {
+		return
+	}
+	zzReach("blob_entry_imported")
+	zzAssert(zzTagOf(zzTgt) == w.top.Digest, "import_yields_the_same_top_digest")
+	for _, d := range w.all {
+		got, ok := zzos.Cur.Data(zzBlobFile(zzTgt, d))
+		zzAssert(ok && string(got) == string(w.bytes[d]), "import_yields_complete_identical_content")
+	}
+}
